@@ -227,7 +227,7 @@ pub fn run(ctx: &Ctx) {
         ctx.bump_extra("fault_runs", FAULT_RUNS.load(std::sync::atomic::Ordering::Relaxed));
         ctx.bump_extra("nontrivial_fault_runs", NONTRIVIAL_FAULT_RUNS.load(std::sync::atomic::Ordering::Relaxed));
     } else {
-        run_confs(ctx, "single", ctx.tier.pick(8, 40), ctx.tier.pick(12, 60), false, &[]);
-        run_confs(ctx, "multi", ctx.tier.pick(8, 40), ctx.tier.pick(40, 200), false, &[]);
+        run_confs(ctx, "single", ctx.tier.pick(16, 64), ctx.tier.pick(16, 80), false, &[]);
+        run_confs(ctx, "multi", ctx.tier.pick(16, 64), ctx.tier.pick(60, 300), false, &[]);
     }
 }
